@@ -1887,10 +1887,12 @@ package otto
 // RegExp.prototype.exec core (15.10.6.2): only RegExp objects; a failed match - no match, or
 // a lastIndex outside [0, length] for a global expression - resets lastIndex to 0; the
 // subject is never sliced outside its bounds; a global match advances lastIndex.
-// [[Get]] yields a language value (ASSUMED of the property tables and of getters)
+// [[Get]] yields a language value (ASSUMED of the property tables and of getters); the call
+// record of the native function that asked (a Go local) is out of reach of any getter
 //@ func (*object).get
 //@   trusted
 //@   requires o != nil
+//@   preserves FunctionCall.runtime, FunctionCall.ArgumentList, FunctionCall.This, FunctionCall.thisObj, FunctionCall.eval, FunctionCall.Otto
 //@   ensures jsValue(result)
 //@ func (*object).regExpValue
 //@   inline
@@ -2518,3 +2520,63 @@ package otto
 //@   props C07
 //@   safety C02 C07
 //@   requires rt != nil && wfStored(descriptor)
+
+// ---------------------------------------------------------------------------
+// builtin_array.go: the callback protocol of the iteration methods (15.4.4.16-22) (C08)
+// ---------------------------------------------------------------------------
+
+// every/some/forEach/map/filter call the callback with (kValue, k, O) and thisArg as this;
+// reduce/reduceRight with (accumulator, kValue, k, O) and undefined as this.  k is the NUMERIC
+// index of the element being visited, O the receiver object; without an initial value and
+// without any present element reduce/reduceRight must not return normally.
+//@ spec numIdx(x interface{}, i int64) bool = (is(x, int64) && x.(int64) == i) ||
+//@+  (is(x, Value) && x.(Value).kind == valueNumber && is(x.(Value).value, int64) && x.(Value).value.(int64) == i)
+//@ func builtinArrayEvery
+//@   props C08
+//@   nosafety
+//@   requires wfCall(call) && argsOK(call.ArgumentList) && call.runtime != nil
+//@   stable call.ArgumentList
+//@   abstract_callee (Value).call, (Value).bool, getValueOfArrayIndex
+//@   at_call (Value).call : arg0 == iterator && arg2 == callThis && len(arg3) == 3 && numIdx(arg3[1], index) && is(arg3[2], Value) && arg3[2].(Value) == this
+//@ func builtinArraySome
+//@   props C08
+//@   nosafety
+//@   requires wfCall(call) && argsOK(call.ArgumentList) && call.runtime != nil
+//@   stable call.ArgumentList
+//@   abstract_callee (Value).call, (Value).bool, getValueOfArrayIndex
+//@   at_call (Value).call : arg0 == iterator && arg2 == callThis && len(arg3) == 3 && numIdx(arg3[1], index) && is(arg3[2], Value) && arg3[2].(Value) == this
+//@ func builtinArrayForEach
+//@   props C08
+//@   nosafety
+//@   requires wfCall(call) && argsOK(call.ArgumentList) && call.runtime != nil
+//@   stable call.ArgumentList
+//@   abstract_callee (Value).call, (Value).bool, getValueOfArrayIndex
+//@   at_call (Value).call : arg0 == iterator && arg2 == callThis && len(arg3) == 3 && numIdx(arg3[1], index) && is(arg3[2], Value) && arg3[2].(Value) == this
+//@ func builtinArrayMap
+//@   props C08
+//@   nosafety
+//@   requires wfCall(call) && argsOK(call.ArgumentList) && call.runtime != nil
+//@   stable call.ArgumentList
+//@   abstract_callee (Value).call, (Value).bool, getValueOfArrayIndex
+//@   at_call (Value).call : arg0 == iterator && arg2 == callThis && len(arg3) == 3 && numIdx(arg3[1], index) && is(arg3[2], Value) && arg3[2].(Value) == this
+//@ func builtinArrayFilter
+//@   props C08
+//@   nosafety
+//@   requires wfCall(call) && argsOK(call.ArgumentList) && call.runtime != nil
+//@   stable call.ArgumentList
+//@   abstract_callee (Value).call, (Value).bool, getValueOfArrayIndex
+//@   at_call (Value).call : arg0 == iterator && arg2 == callThis && len(arg3) == 3 && numIdx(arg3[1], index) && is(arg3[2], Value) && arg3[2].(Value) == this
+//@ func builtinArrayReduce
+//@   props C08
+//@   nosafety
+//@   requires wfCall(call) && argsOK(call.ArgumentList) && call.runtime != nil
+//@   stable call.ArgumentList
+//@   abstract_callee (Value).call, (Value).bool, getValueOfArrayIndex
+//@   at_call (Value).call : arg0 == iterator && arg2 == Value{} && len(arg3) == 4 && numIdx(arg3[2], index) && is(arg3[3], Value) && arg3[3].(Value) == this
+//@ func builtinArrayReduceRight
+//@   props C08
+//@   nosafety
+//@   requires wfCall(call) && argsOK(call.ArgumentList) && call.runtime != nil
+//@   stable call.ArgumentList
+//@   abstract_callee (Value).call, (Value).bool, getValueOfArrayIndex
+//@   at_call (Value).call : arg0 == iterator && arg2 == Value{} && len(arg3) == 4 && numIdx(arg3[2], index) && is(arg3[3], Value) && arg3[3].(Value) == this
